@@ -334,6 +334,10 @@ func checkQRLQ(c qrlqCase) *vk.Failure {
 		func(dst *mat.Dense, bm mat.Matrix) error { return solveM(dst, c.Trans, bm) },
 		func(dst *mat.VecDense, bv mat.Vector) error { return solveV(dst, c.Trans, bv) })
 	vk.Class(c.Type + "/" + label)
+	if f := errIffCond(c.Type+"-solve", err, cond); f != nil {
+		f.Msg += " (class " + c.Class + " " + label + ")"
+		return f
+	}
 	if g.singular {
 		cv, ok := condOf(err)
 		if !ok || !math.IsInf(cv, 1) {
